@@ -82,6 +82,7 @@ class Registers:
     def __init__(self):
         self._R = {}
         self.changed_registers = [False] * 16
+        self.it_state_restored = False
         for register in RName:
             self._R[register] = 0
         self.cpsr = CPSR()
@@ -465,6 +466,7 @@ class Registers:
         if bit_at(bytemask, 3):
             self.cpsr.value = set_substring(self.cpsr.value, 31, 27, substring(value, 31, 27))
             if is_excp_return:
+                self.it_state_restored = True
                 self.cpsr.value = set_substring(self.cpsr.value, 26, 24, substring(value, 26, 24))
         if bit_at(bytemask, 2):
             self.cpsr.value = set_substring(self.cpsr.value, 19, 16, substring(value, 19, 16))
